@@ -113,6 +113,8 @@ func check(c Case) vk.Verdict {
 		if c.Dup {
 			// the same name once more for another path, as a header line (Cookie() keeps one cookie per name)
 			ctx.Response().Header.Add("Set-Cookie", c.Cookies[0].Name+"="+dupValue+"; Path=/other")
+			// ... and a name-value pair without '=' (a nameless cookie) in a line the cookie parser refuses
+			ctx.Response().Header.Add("Set-Cookie", "nameless-secret-text; max-age=soon")
 		}
 		if c.SetPanic {
 			panic("handler failed after setting its cookies")
@@ -189,6 +191,11 @@ func check(c Case) vk.Verdict {
 		r := vk.Do(app, "GET", "/set")
 		var plain []string
 		var fail string
+		r.Response.Header.VisitAllCookie(func(_, line []byte) {
+			if bytes.Contains(line, []byte("nameless-secret-text")) {
+				fail = fmt.Sprintf("Set-Cookie line %q: the value of the nameless cookie reaches the client in plaintext", line)
+			}
+		})
 		r.Response.Header.VisitAllCookie(func(k, line []byte) {
 			if string(k) != name {
 				return
